@@ -1,9 +1,14 @@
-(* C12 - OpenAPI export is a valid document that carries every type and endpoint.  Statements only. *)
+(* C12 - OpenAPI export is a valid document that carries every type and endpoint.  Statements only; proofs by `exact`.
+   `export3_with tb o a` is the model (Export/OasExport.v) of `sysl export -f openapi3` for application `a`, parameterised
+   by the tables `tb` regenerated from the source and by the oracle `o` that decides in which order every Go map is
+   ranged over.  `fixed3` = the tables of the repaired tree; C12_tables3_current ties it to the current source. *)
 From Coq Require Import String List NArith ZArith Bool Permutation.
 Import ListNotations.
-Require Import Verif.Export.OasTypes Verif.Export.OasExport Verif.Export.OasCurrent Verif.Gen.ExportTables.
+Require Import Verif.Export.OasTypes Verif.Export.OasExport Verif.Export.OasCurrent Verif.Export.GoMapProps
+               Verif.Export.OasExportProps Verif.Gen.ExportTables.
 
-(* obligations against the source: the regenerated tables are the ones the theorems are proved for *)
+(* ---- obligations against the source (break when an arm of exportType, the rule filling `required`, the assignment
+   of array items, a sort before emission, or one of the repairs changes) *)
 Theorem C12_tables3_current : tables3_of_source = fixed3.
 Proof. exact tables3_current. Qed.
 Print Assumptions C12_tables3_current.
@@ -15,3 +20,75 @@ Print Assumptions C12_tables2_current.
 Theorem C12_translator_classified_everything : unknown = [].
 Proof. exact translator_classified_everything. Qed.
 Print Assumptions C12_translator_classified_everything.
+
+(* ---- completeness, types (full, for every application with duplicate-free maps, any iteration order): every type is
+   a schema that `presents` it: JSON type and format of a primitive, array with items also when optional, $ref target,
+   every field a property and no other, required = exactly the non-optional fields, enum = exactly the item names *)
+Theorem C12_export_complete_types : forall o a d, perm_oracle o -> wf_app a -> export3_with fixed3 o a = Ok d ->
+  forall n t, In (n,t) (a_types a) -> exists s, mget n (d_schemas d) = Some s /\ presents t s.
+Proof. exact export_complete_types. Qed.
+Print Assumptions C12_export_complete_types.
+
+(* non-vacuity: an application with an optional array, a required and an optional field meets the hypotheses *)
+Example C12_complete_nonvacuous :
+  let a := {| a_name := 1; a_n200 := 2; a_types := [(3, STuple false false [(4, SSeq true (SPrim false "string")); (5, SPrim false "int"); (6, SPrim true "bool")])];
+              a_endpoints := [] |}%N in
+  wf_app a /\ exists d, export3_with fixed3 (@rev N) a = Ok d /\
+    mget 3%N (d_schemas d) = Some (Sch 0%N "object" "" None
+        [(4%N, Sch 0%N "array" "" (Some (Sch 0%N "string" "" None [] [] [])) [] [] []); (5%N, Sch 0%N "integer" "int64" None [] [] []);
+         (6%N, Sch 0%N "boolean" "" None [] [] [])] [5%N] []).
+Proof.
+  split; [unfold wf_app; cbn; repeat split; repeat constructor; cbn; intuition discriminate|].
+  eexists. split; [vm_compute; reflexivity|reflexivity].
+Qed.
+
+(* ---- completeness, endpoints (partial: existence and identity of the operation; parameters, body and responses of
+   that operation are what export_operation computes - tied to the code by correspondence, not characterised by a
+   separate specification): export does not fail when every method is an OpenAPI method, and every endpoint is the
+   operation under its path and method *)
+Theorem C12_export_complete_endpoints_partial : forall o a, perm_oracle o -> wf_app a ->
+  (forall kv, In kv (a_endpoints a) -> op_key (e_key (snd kv)) <> None) ->
+  exists d, export3_with fixed3 o a = Ok d /\
+    forall n e, In (n,e) (a_endpoints a) ->
+      mget (opk (e_key e)) (d_ops d) = Some (export_operation fixed3 ido (snd (build_ep fixed3 ido a (n,e)))).
+Proof. exact export_complete_endpoints. Qed.
+Print Assumptions C12_export_complete_endpoints_partial.
+
+(* ---- termination on recursive types (full): the schema is no deeper than the type's own syntax tree, for every table,
+   iteration order and reference graph; a reference, also one closing a cycle, is a leaf naming its target *)
+Theorem C12_export_terminates : forall tb o t, (sdepth (export_type tb o (map_type o t)) <= tdepth t)%nat.
+Proof. exact export_terminates. Qed.
+Print Assumptions C12_export_terminates.
+
+Theorem C12_export_ref_is_leaf : forall o op r,
+  export_type fixed3 o (map_type o (SRef op r)) = Sch (snd (get_ref_details r)) "" "" None [] [] [].
+Proof. exact export_ref_is_leaf. Qed.
+Print Assumptions C12_export_ref_is_leaf.
+
+(* ---- order independence (serves C19): full for the repaired tables - any two iteration orders of every map give the
+   same document - for every application whose maps have distinct keys and in which no two endpoints are the same
+   method of the same path; and for any tables with the sorts in place *)
+Theorem C12_export_order_independent : forall o1 o2 a, perm_oracle o1 -> perm_oracle o2 -> wf_app a ->
+  export3_with fixed3 o1 a = export3_with fixed3 o2 a.
+Proof. exact export_order_independent. Qed.
+Print Assumptions C12_export_order_independent.
+
+Theorem C12_export_order_independent_any_sorted_tables : forall tb o1 o2 a, sorted_tb tb -> perm_oracle o1 -> perm_oracle o2 -> wf_app a ->
+  export3_with tb o1 a = export3_with tb o2 a.
+Proof. exact export_order_independent_tb. Qed.
+Print Assumptions C12_export_order_independent_any_sorted_tables.
+
+(* refuted for the tree as it was found (no sort of `required`, parameters, responses, enum values) *)
+Theorem C12_export_order_independent_refuted : exists o1 o2 a, perm_oracle o1 /\ perm_oracle o2 /\ wf_app a /\
+  export3_with found3 o1 a <> export3_with found3 o2 a.
+Proof. exact export_order_independent_refuted. Qed.
+Print Assumptions C12_export_order_independent_refuted.
+
+(* ---- the base lemmas the above rest on *)
+Theorem C12_map_built_by_loop_is_order_free : forall (l l':list (N*schema)), NoDup (map fst l) -> Permutation l l' -> mset_all l [] = mset_all l' [].
+Proof. exact (@mset_all_perm schema). Qed.
+Print Assumptions C12_map_built_by_loop_is_order_free.
+
+Theorem C12_sorted_permutation_unique : forall l l', Permutation l l' -> nsort l = nsort l'.
+Proof. exact nsort_perm. Qed.
+Print Assumptions C12_sorted_permutation_unique.
